@@ -153,4 +153,12 @@ def instances(tier):
     for se in (2, 3, 4, 16):
         for m in ((3, 5) if q else (3, 5, 9)):
             out.append(inst_split_every(m, se))
+    # per-axis split_every dicts (tree depth) and intermediate combine levels of arg reductions: same instances as C18
+    from . import C18
+
+    out.append(C18.inst_tree_structure((2, 8), (0, 1), {0: 4, 1: 2}))
+    out.append(C18.inst_tree_structure((2, 8), (0, 1), {0: 2, 1: 4}))
+    out.append(C18.inst_tree((4,), 0, {0: 1}, False))
+    out.append(C18.inst_arg_nd(((2,), (1, 1, 1)), "argmin", two_level=True))
+    out.append(C18.inst_arg_nd(((2,), (1, 1, 1)), "argmax", two_level=True))
     return out
